@@ -23,7 +23,7 @@
 (***************************************************************************)
 EXTENDS Hashing, Integers
 
-CONSTANTS MaxNamed, MaxSup, MaxCfg, MaxEdits
+CONSTANTS MaxNamed, MaxSup, MaxCfg, MaxEdits, JpLevel
 
 Devs == <<"ZipPastVarargs", "DefaultsByIndex", "VarKwConfig">>
 
@@ -41,9 +41,11 @@ OkShape(s) == /\ Len(s.pos) + Len(s.ko) <= MaxNamed
               /\ \A i \in 1..Len(s.pos) : s.pos[i].n = PNames[i]
 \* PosSeq with nd > np yields all-default sequences more than once: sets remove the duplicates
 SubSeqOf(names, S) == PickIdx(names, LAMBDA i : names[i] \in S)
+\* JpLevel = 1: a JobInfo parameter only in signatures without **kwargs (keeps the quick universe small)
 JpChoices(s) ==
-  {"-"} \cup (IF Len(s.pos) > 0 /\ s.pos[Len(s.pos)].d = 1 THEN {s.pos[Len(s.pos)].n} ELSE {})
-        \cup (IF Len(s.ko) > 0 /\ s.ko[Len(s.ko)].d = 1 THEN {s.ko[Len(s.ko)].n} ELSE {})
+  IF JpLevel = 1 /\ s.vk = 1 THEN {"-"}
+  ELSE {"-"} \cup (IF Len(s.pos) > 0 /\ s.pos[Len(s.pos)].d = 1 THEN {s.pos[Len(s.pos)].n} ELSE {})
+             \cup (IF Len(s.ko) > 0 /\ s.ko[Len(s.ko)].d = 1 THEN {s.ko[Len(s.ko)].n} ELSE {})
 SigsOf(s) == UNION {{[s EXCEPT !.cfg = SubSeqOf(AllNames(s), c), !.jp = j] :
                        c \in {x \in SUBSET SeqSet(AllNames(s)) : Cardinality(x) <= MaxCfg /\ j \notin x}} :
                     j \in JpChoices(s)}
